@@ -5,7 +5,7 @@
     behind"); the theorems below say how much of the stream each sampler consumes ([consumes us r n]: us = pre ++ r
     with n = length pre), which is what the check compares with the state of the real std::mt19937 after the call. *)
 From Coq Require Import ZArith List Reals.
-From LP Require Import Num NumR C18_Model C18_Proofs C18_Proofs_R C18_Proofs_St C18_Proofs_StR.
+From LP Require Import Num NumR C18_Model C18_Proofs C18_Proofs_R C18_Proofs_St C18_Proofs_StR C18_Proofs_Hist C18_Proofs_HistR C18_Proofs_StR2 C18_Proofs_Supp.
 Import ListNotations.
 
 (** ** consumption, for an arbitrary number type (control flow only; valid verbatim for doubles) *)
@@ -307,3 +307,161 @@ Theorem C18_metropolis_in_domain_reentrant {A : Type} (PDF : @sfun1 R A) sigma s
 Proof. exact (metropolis_st_in_domain PDF sigma sample thin burn lo hi s l s'). Qed.
 Print Assumptions C18_metropolis_in_domain_reentrant.
 
+
+Theorem C18_metropolis_2d_in_domain_reentrant {A : Type} (PDF : @sfun2 R A) s1 s2 sample thin burn x0 x1 y0 y1 (s : @st R A) l s' :
+  keeps_stream2 PDF -> x0 <= x1 -> y0 <= y1 -> Forall (fun u => 0 <= u < 1) (fst s) ->
+  sample_metropolis_2d_st ROps PDF s1 s2 sample thin burn [x0; x1; y0; y1] s = Ok (l, s') ->
+  Forall (fun p => x0 <= fst p <= x1 /\ y0 <= snd p <= y1) l.
+Proof. exact (metropolis_2d_st_in_domain PDF s1 s2 sample thin burn x0 x1 y0 y1 s l s'). Qed.
+Print Assumptions C18_metropolis_2d_in_domain_reentrant.
+(* the hypothesis is satisfiable by a density that really draws from the sampler's generator *)
+Theorem C18_reentrant_2d_density_exists {A : Type} : exists PDF : @sfun2 R A, keeps_stream2 PDF /\
+  forall x y u r a, PDF x y (u :: r, a) = Ok (x + y + u, (r, a)).
+Proof. exact (ex_intro _ noisy2 (conj noisy2_keeps_stream (fun x y u r a => eq_refl))). Qed.
+Print Assumptions C18_reentrant_2d_density_exists.
+
+(** ** "all interleavings of different samplers on one generator": a HISTORY of calls ([run_calls], C18_Model.v: the calls
+    one after the other, each on the stream its predecessor left behind; checked against the library on every `seq`
+    case).  For histories of ANY length and composition, any number type (so verbatim for doubles): *)
+Section Histories.
+Context {T : Type} (Ops : NumOps T).
+
+(** every answer of a history is the answer of that call ALONE on the generator state it found, and the calls after it
+    start from the state it left behind: nothing but the generator connects the calls *)
+Theorem C18_history_every_call (h1 : list (@call T)) c h2 us outs r :
+  run_calls Ops (h1 ++ c :: h2) us = Ok (outs, r) ->
+  exists o1 r1 a r2 o2, run_calls Ops h1 us = Ok (o1, r1) /\ run_call Ops c r1 = Ok (a, r2) /\
+    run_calls Ops h2 r2 = Ok (o2, r) /\ outs = o1 ++ a :: o2 /\ length o1 = length h1.
+Proof. exact (history_every_call Ops h1 c h2 us outs r). Qed.
+
+(** a history h1 ++ h2 is h2 run on what h1 left behind (both directions) *)
+Theorem C18_history_composition (h1 h2 : list (@call T)) us outs r :
+  run_calls Ops (h1 ++ h2) us = Ok (outs, r) <->
+  exists o1 r1 o2, run_calls Ops h1 us = Ok (o1, r1) /\ run_calls Ops h2 r1 = Ok (o2, r) /\ outs = o1 ++ o2.
+Proof. exact (run_calls_app Ops h1 h2 us outs r). Qed.
+
+(** "equal generator states give identical outputs and leave equal states behind", over histories: two DIFFERENT histories
+    (other samplers, other arguments, other initial states) that leave the generator in the same state are followed by the
+    same answer and the same state, for every call *)
+Theorem C18_history_same_state_same_answer (h1 h2 : list (@call T)) us1 us2 o1 o2 s c a r :
+  run_calls Ops h1 us1 = Ok (o1, s) -> run_calls Ops h2 us2 = Ok (o2, s) -> run_call Ops c s = Ok (a, r) ->
+  run_calls Ops (h1 ++ [c]) us1 = Ok (o1 ++ [a], r) /\ run_calls Ops (h2 ++ [c]) us2 = Ok (o2 ++ [a], r).
+Proof. exact (history_same_state_same_answer Ops h1 h2 us1 us2 o1 o2 s c a r). Qed.
+
+(** the stream a history consumes is the sum of what its calls consume ([call_cost]: 1 for uniform / Gauss / inverse
+    transform, k + 1 for a Poisson value k, 2 resp. 3 per rejection trial, 1 + 2 i_max resp. 2 + 3 i_max for Metropolis):
+    nothing is drawn between the calls, nothing is put back *)
+Theorem C18_history_consumption (cs : list (@call T)) us outs r :
+  run_calls Ops cs us = Ok (outs, r) -> exists n, costs cs outs n /\ consumes us r n.
+Proof. exact (history_consumption Ops cs us outs r). Qed.
+
+(** ... known before the first call is made when no Poisson / rejection call is among them *)
+Theorem C18_history_consumption_fixed (cs : list (@call T)) us outs r n :
+  fixed_costs cs = Some n -> run_calls Ops cs us = Ok (outs, r) -> consumes us r n.
+Proof. exact (history_consumption_fixed Ops cs us outs r n). Qed.
+
+(** exactly the requested number of samples at EVERY position of EVERY history *)
+Theorem C18_history_metropolis_count (cs : list (@call T)) j us outs r PDF sigma sample thin burn domain :
+  nth_error cs j = Some (CMetro PDF sigma sample thin burn domain) ->
+  (1 <= thin)%Z -> (0 <= burn)%Z -> (0 <= sample)%Z -> (burn + thin * sample < 4294967296)%Z ->
+  run_calls Ops cs us = Ok (outs, r) ->
+  exists l, nth_error outs j = Some (AReals l) /\ Z.of_nat (length l) = sample.
+Proof. exact (history_metropolis_count Ops cs j us outs r PDF sigma sample thin burn domain). Qed.
+
+Theorem C18_history_metropolis_2d_count (cs : list (@call T)) j us outs r PDF s1 s2 sample thin burn domain :
+  nth_error cs j = Some (CMetro2 PDF s1 s2 sample thin burn domain) ->
+  (1 <= thin)%Z -> (0 <= burn)%Z -> (0 <= sample)%Z -> (burn + thin * sample < 4294967296)%Z ->
+  run_calls Ops cs us = Ok (outs, r) ->
+  exists l, nth_error outs j = Some (APoints l) /\ Z.of_nat (length l) = sample.
+Proof. exact (history_metropolis_2d_count Ops cs j us outs r PDF s1 s2 sample thin burn domain). Qed.
+
+(** the vector overload of Sample_Poisson IS the history of single calls, one per expectation value, in order *)
+Theorem C18_poisson_vector_is_history lams us ks r :
+  sample_poisson_list Ops lams us = Ok (ks, r) <-> run_calls Ops (map (@CPoisson T) lams) us = Ok (map (@ACount T) ks, r).
+Proof. exact (poisson_vector_is_history Ops lams us ks r). Qed.
+End Histories.
+Print Assumptions C18_history_every_call.
+Print Assumptions C18_history_composition.
+Print Assumptions C18_history_same_state_same_answer.
+Print Assumptions C18_history_consumption.
+Print Assumptions C18_history_consumption_fixed.
+Print Assumptions C18_history_metropolis_count.
+Print Assumptions C18_history_metropolis_2d_count.
+Print Assumptions C18_poisson_vector_is_history.
+
+(** non-vacuity: three different samplers interleaved on one stream of four uniforms *)
+Theorem C18_history_example :
+  run_calls ROps [CUniform (-1) 3; CRej (fun x => 2 * x) 0 1 2; CMetro (fun x => x) 1 0 1 0 [0; 1]] [/2; /2; /4; /2]
+  = Ok ([AReal 1; AReal (/2); AReals []], []).
+Proof. exact history_ex. Qed.
+Print Assumptions C18_history_example.
+
+(** ** "returns values inside the requested domain" for Inverse_Transform_Sampling: Find_Root keeps every iterate inside
+    the bracket (the clamp of Ridder's point), so the value returned lies between xMin and xMax -- for EVERY cdf
+    (monotone or not, continuous or not), every generator state, limits in either order *)
+Theorem C18_inverse_transform_in_range cdf a b us v r :
+  inverse_transform ROps cdf a b us = Ok (v, r) -> Rmin a b <= v <= Rmax a b.
+Proof. exact (inverse_transform_in_range cdf a b us v r). Qed.
+Print Assumptions C18_inverse_transform_in_range.
+
+(** ... and at every position of every history; likewise containment of a bounded Metropolis call *)
+Theorem C18_history_inverse_transform_in_range cs j us outs r cdf a b :
+  nth_error cs j = Some (CInvT cdf a b) -> run_calls ROps cs us = Ok (outs, r) ->
+  exists x, nth_error outs j = Some (AReal x) /\ Rmin a b <= x <= Rmax a b.
+Proof. exact (history_inverse_transform_in_range cs j us outs r cdf a b). Qed.
+Print Assumptions C18_history_inverse_transform_in_range.
+
+Theorem C18_history_metropolis_in_domain cs j us outs r PDF sigma sample thin burn lo hi :
+  nth_error cs j = Some (CMetro PDF sigma sample thin burn [lo; hi]) -> lo <= hi ->
+  Forall (fun u => 0 <= u < 1) us -> run_calls ROps cs us = Ok (outs, r) ->
+  exists l, nth_error outs j = Some (AReals l) /\ Forall (fun z => lo <= z <= hi) l.
+Proof. exact (history_metropolis_in_domain cs j us outs r PDF sigma sample thin burn lo hi). Qed.
+Print Assumptions C18_history_metropolis_in_domain.
+
+(** ** the law of Sample_Gauss is TRUNCATED at 10 sqrt(2) standard deviations (Inv_Erf returns values in [-10, 10]); the
+    Gaussian mass outside is erfc(10) ~ 2e-45, far below the significance of the distributional clause *)
+Theorem C18_sample_gauss_truncated mean sd us v r : 0 <= sd ->
+  sample_gauss ROps mean sd us = Ok (v, r) -> Rabs (v - mean) <= 10 * (sqrt 2 * sd).
+Proof. exact (sample_gauss_truncated mean sd us v r). Qed.
+Print Assumptions C18_sample_gauss_truncated.
+
+(** ** "returns values inside the support" for Sample_Metropolis(_2D): a chain that is at a point of positive density never
+    moves to a point of density zero -- bounded and unbounded domain, every non-negative density, every proposal width, every
+    (sample, thinning, burn_in), every generator state.  [metro_start]: the start point is uniform in the bounded domain /
+    Gaussian around 0; a start point of density zero is outside this theorem (see LEVEL_TEXT). *)
+Theorem C18_metropolis_stays_in_support PDF sigma sample thin burn domain u us l r x0 :
+  (forall y, 0 <= PDF y) -> Forall (fun v => 0 <= v) us ->
+  metro_start sigma domain u x0 -> 0 < PDF x0 ->
+  sample_metropolis ROps PDF sigma sample thin burn domain (u :: us) = Ok (l, r) ->
+  Forall (fun z => 0 < PDF z) l.
+Proof. exact (metropolis_stays_in_support PDF sigma sample thin burn domain u us l r x0). Qed.
+Print Assumptions C18_metropolis_stays_in_support.
+
+Theorem C18_metropolis_2d_stays_in_support PDF s1 s2 sample thin burn domain u1 u2 us l r p0 :
+  (forall x y, 0 <= PDF x y) -> Forall (fun v => 0 <= v) us ->
+  metro2_start s1 s2 domain u1 u2 p0 -> 0 < PDF (fst p0) (snd p0) ->
+  sample_metropolis_2d ROps PDF s1 s2 sample thin burn domain (u1 :: u2 :: us) = Ok (l, r) ->
+  Forall (fun z => 0 < PDF (fst z) (snd z)) l.
+Proof. exact (metropolis_2d_stays_in_support PDF s1 s2 sample thin burn domain u1 u2 us l r p0). Qed.
+Print Assumptions C18_metropolis_2d_stays_in_support.
+
+(* the hypotheses are satisfiable: the triangular density 2x on [0,1] (zero outside), domain [-1,2], start deviate 1/2 *)
+Theorem C18_stays_in_support_example :
+  let PDF := fun x : R => if Rle_dec 0 x then (if Rle_dec x 1 then 2 * x else 0) else 0 in
+  (forall y, 0 <= PDF y) /\ metro_start 1 [-1; 2] (/2) (/2) /\ 0 < PDF (/2).
+Proof. exact stays_in_support_ex. Qed.
+Print Assumptions C18_stays_in_support_example.
+
+(** the step behind it: a candidate of density zero has acceptance probability exactly 0 from every current point *)
+Theorem C18_acceptance_zero_density_candidate PDF dom x cand : PDF cand = 0 -> accept1 ROps PDF dom x cand = 0.
+Proof. exact (accept1_zero_density PDF dom x cand). Qed.
+Print Assumptions C18_acceptance_zero_density_candidate.
+
+(** detailed balance on a bounded 2D domain (the unbounded 2D and both 1D cases are above) *)
+Theorem C18_acceptance_detailed_balance_2d_bounded PDF x0 x1 y0 y1 x y :
+  x0 <= fst x <= x1 -> y0 <= snd x <= y1 -> x0 <= fst y <= x1 -> y0 <= snd y <= y1 ->
+  0 < PDF (fst x) (snd x) -> 0 < PDF (fst y) (snd y) ->
+  PDF (fst x) (snd x) * accept2 ROps PDF (Some (x0, x1, y0, y1)) x y =
+  PDF (fst y) (snd y) * accept2 ROps PDF (Some (x0, x1, y0, y1)) y x.
+Proof. exact (acceptance_detailed_balance_2d_bounded PDF x0 x1 y0 y1 x y). Qed.
+Print Assumptions C18_acceptance_detailed_balance_2d_bounded.
